@@ -73,7 +73,7 @@ class Exec(ExprMixin, CallMixin):
         cut = self.contract.ghost.get("cut") if self.inline_depth == 0 else None
         if cut and isinstance(s, (ast.Assign, ast.AnnAssign)):
             tgts = s.targets if isinstance(s, ast.Assign) else [s.target]
-            if any(isinstance(t, ast.Name) and t.id == cut["before_assign"] for t in tgts):
+            if cut.get("before_assign") and any(isinstance(t, ast.Name) and t.id == cut["before_assign"] for t in tgts):
                 # cut point: the contract covers the function up to here only
                 for aname, asrc in cut["asserts"].items():
                     t = self.truth(self._spec_eval(asrc))
@@ -442,6 +442,14 @@ class Exec(ExprMixin, CallMixin):
         self._with(s, True)
 
     def _with(self, s, is_async):
+        cut = self.contract.ghost.get("cut") if self.inline_depth == 0 else None
+        if cut and cut.get("before_with") and any(re.fullmatch(cut["before_with"], ast.unparse(it.context_expr)) for it in s.items):
+            # cut point at the entry of a `with`: the contract covers the function up to here only
+            for aname, asrc in cut["asserts"].items():
+                t = self.truth(self._spec_eval(asrc))
+                self.ctx.oblige(f"cut:{self.contract.qualname}:{aname}", t, kind="post", line=s.lineno)
+            self.ctx.cover(f"cover:{self.contract.qualname}:cut", line=s.lineno)
+            raise PathEnd()
         kinds = []
         for item in s.items:
             src = ast.unparse(item.context_expr)
@@ -966,7 +974,15 @@ class Exec(ExprMixin, CallMixin):
             gvars.append(gv.t)
         if not self.spec_mode:
             for aname, asrc in (self.cur_contract.ghost.get("call_asserts", {}).get(ct.fname) or {}).items():
-                t = self.truth(self._spec_eval(asrc))
+                # caller's scope, plus the actual arguments as arg_<callee parameter>
+                saved_l = self.ctx.locals
+                self.ctx.locals = dict(saved_l)
+                for pk, pv in bound.items():
+                    self.ctx.locals.setdefault("arg_" + pk, SV(pv.ty, pv.t, None, pv.py))
+                try:
+                    t = self.truth(self._spec_eval(asrc))
+                finally:
+                    self.ctx.locals = saved_l
                 self.ctx.oblige(f"assert:{self.cur_contract.qualname}:at-{ct.fname}:{aname}", t, kind="assert", line=node.lineno)
         if ct.inline:
             return self.inline_call(ct, fi, bound, node)
